@@ -1,7 +1,339 @@
-//! stub
-use serde_json::Value;
-use crate::engine::Ctx;
-pub const RULE: &str = "";
-pub const ASSUMPTIONS: &[&str] = &[];
-pub fn run(_ctx: &Ctx) {}
-pub fn replay(_part: &str, _case: &Value) -> Result<(), String> { Err("not implemented".into()) }
+//! C03 — decoder total, strict, classified; agrees with an independent parser.
+
+use flipdot_core::{Frame, FrameError};
+use proptest::prelude::*;
+use serde::{Deserialize, Serialize};
+use serde_json::{json, Value};
+
+use crate::engine::{catch, h64, par_range, run_generated, show_bytes, Ctx, Stats};
+use crate::oracle::hex::{ref_decode, ref_shape, RefDecode};
+use crate::props::c01::{addr_strategy, byte_strategy};
+
+pub const RULE: &str = "byte strings from three generators: (i) exhaustive - every string of length 0..=4 (quick) / 0..=5 (thorough) over the 28-symbol structural alphabet {':', 0-9, A-F, a-f, 'G', CR, LF, NUL, 0xFF}, every minimal frame ':'+10 digits over {0,1,F,f} x 9 terminator variants, and every one-data-byte frame ':'+12 digits over {0,1,F}; (ii) grammar based - optional junk prefix, colon, hex pairs in random case with right/wrong length field and right/wrong checksum, optional odd digit, terminator variant, optional suffix/second frame, 0..3 random byte edits, up to ~600 bytes; each compared with a hand-written byte-level parser on accept/reject, error class, the numbers the class reports, and (if accepted) re-encoding. Non-trivial = the string has the documented shape (it reaches the length/checksum logic) or is within one byte edit of having it; distinct by hash of the string";
+pub const ASSUMPTIONS: &[&str] = &["the reference parser in oracle/hex.rs implements the documented form (':' + hex pairs in either case + optional single CRLF) and the stated precedence malformed > length > checksum"];
+
+#[derive(Serialize, Deserialize, Debug, Clone)]
+pub struct BytesCase {
+    pub bytes: Vec<u8>,
+}
+
+const ALPHABET: &[u8; 28] = b":0123456789ABCDEFabcdefG\r\n\x00\xff";
+
+fn shape_valid(s: &[u8]) -> bool {
+    ref_shape(s).is_some()
+}
+
+/// is `s` (shape-invalid) within one byte edit of a shape-valid string? brute force, short strings only
+fn near_shape(s: &[u8]) -> bool {
+    let n = s.len();
+    let mut buf: Vec<u8> = Vec::with_capacity(n + 1);
+    // substitution
+    for i in 0..n {
+        for &c in b":0\r\n" {
+            if s[i] == c {
+                continue;
+            }
+            buf.clear();
+            buf.extend_from_slice(s);
+            buf[i] = c;
+            if shape_valid(&buf) {
+                return true;
+            }
+        }
+    }
+    // deletion
+    for i in 0..n {
+        buf.clear();
+        buf.extend_from_slice(&s[..i]);
+        buf.extend_from_slice(&s[i + 1..]);
+        if shape_valid(&buf) {
+            return true;
+        }
+    }
+    // insertion
+    for i in 0..=n {
+        for &c in b":0\r\n" {
+            buf.clear();
+            buf.extend_from_slice(&s[..i]);
+            buf.push(c);
+            buf.extend_from_slice(&s[i..]);
+            if shape_valid(&buf) {
+                return true;
+            }
+        }
+    }
+    false
+}
+
+/// The oracle for one byte string. `classify` additionally computes the near/far class (costly).
+pub fn check_bytes(bytes: &[u8], st: &mut Stats, classify: bool) -> Result<(), String> {
+    let want = ref_decode(bytes);
+    st.eval();
+    let got = catch(|| Frame::from_bytes(bytes)).map_err(|p| format!("decoder panicked on {}: {p}", show_bytes(bytes)))?;
+    let mismatch = |what: &str, got: &dyn std::fmt::Debug| -> String {
+        format!(
+            "decoding {}: implementation gives {what} {got:?}, the reference parser gives {want:?}",
+            show_bytes(bytes)
+        )
+    };
+    match (&got, &want) {
+        (Ok(f), RefDecode::Ok { addr, ty, data }) => {
+            if f.address().0 != *addr || f.message_type().0 != *ty || f.data().as_ref() != &data[..] {
+                return Err(mismatch("a frame with different fields", f));
+            }
+            // re-encoding reproduces the input up to hex-digit case and the optional terminator
+            let re = catch(|| f.to_bytes()).map_err(|p| format!("to_bytes panicked on an accepted frame: {p}"))?;
+            let mut canon: Vec<u8> = bytes.to_ascii_uppercase();
+            if canon.ends_with(b"\r\n") {
+                canon.truncate(canon.len() - 2);
+            }
+            if re != canon {
+                return Err(format!(
+                    "re-encoding the accepted string {} gives {}, expected {}",
+                    show_bytes(bytes),
+                    show_bytes(&re),
+                    show_bytes(&canon)
+                ));
+            }
+        }
+        (Err(FrameError::InvalidFrame { .. }), RefDecode::Invalid) => {}
+        (Err(FrameError::FrameDataMismatch { expected, actual, .. }), RefDecode::Mismatch { declared, actual: a }) => {
+            if expected != declared || actual != a {
+                return Err(mismatch("a length mismatch reporting other counts", &(expected, actual)));
+            }
+        }
+        (Err(FrameError::BadChecksum { expected, actual, .. }), RefDecode::BadChecksum { declared, computed }) => {
+            if expected != declared || actual != computed {
+                return Err(mismatch("a checksum error reporting other values", &(expected, actual)));
+            }
+        }
+        (Ok(f), _) => return Err(mismatch("acceptance as", f)),
+        (Err(e), _) => return Err(mismatch("the rejection", e)),
+    }
+    match want {
+        RefDecode::Invalid => {
+            if classify {
+                if bytes.len() <= 64 {
+                    if near_shape(bytes) {
+                        st.class("invalid-near");
+                        st.nontrivial(h64(bytes));
+                    } else {
+                        st.class("invalid-far");
+                    }
+                } else {
+                    st.class("invalid-long(unclassified)");
+                }
+            } else {
+                st.class("invalid");
+            }
+        }
+        ref w => {
+            st.class(w.class());
+            if classify {
+                st.class(match w {
+                    RefDecode::Ok { .. } => "grammar:accepted",
+                    RefDecode::Mismatch { .. } => "grammar:length-mismatch",
+                    _ => "grammar:bad-checksum",
+                });
+            }
+            st.nontrivial(h64(bytes));
+            if st.want_sample() {
+                st.sample(json!({"input": show_bytes(bytes), "reference": format!("{w:?}")}));
+            }
+        }
+    }
+    Ok(())
+}
+
+const TERMINATORS: &[&[u8]] = &[
+    b"",
+    b"\r\n",
+    b"\n",
+    b"\r",
+    b"\r\r\n",
+    b"\r\n\n",
+    b"\r\n\r\n",
+    b"\n\r",
+    b"\r\n:0000000000",
+];
+
+fn grammar_strategy() -> impl Strategy<Value = BytesCase> {
+    let data = prop_oneof![
+        8 => 0usize..=6,
+        4 => 7usize..=20,
+        2 => 21usize..=100,
+        1 => proptest::sample::select(vec![254usize, 255, 256, 280]),
+    ]
+    .prop_flat_map(|n| proptest::collection::vec(byte_strategy(), n));
+    let prefix = prop_oneof![
+        17 => Just(vec![]),
+        1 => proptest::collection::vec(any::<u8>(), 1..4),
+        1 => Just(b":".to_vec()),
+        1 => Just(b"\r\n".to_vec()),
+    ];
+    let colon = prop_oneof![18 => Just(Some(b':')), 1 => Just(None), 1 => any::<u8>().prop_map(Some)];
+    let len_delta = prop_oneof![7 => Just(0i32), 1 => Just(1), 1 => Just(-1), 1 => -300i32..300];
+    let ck_delta = prop_oneof![6 => Just(0u8), 2 => Just(1u8), 2 => any::<u8>()];
+    let odd = prop_oneof![15 => Just(None), 1 => proptest::sample::select(b"0Ff9aG".to_vec()).prop_map(Some)];
+    let term = prop_oneof![4 => Just(0u16), 4 => Just(1u16), 3 => any::<u16>()];
+    let suffix = prop_oneof![16 => Just(vec![]), 1 => proptest::collection::vec(any::<u8>(), 1..4), 1 => Just(b" ".to_vec())];
+    let edits = prop_oneof![
+        12 => Just(vec![]),
+        5 => proptest::collection::vec((any::<u16>(), any::<u8>(), 0u8..3), 1..=1),
+        2 => proptest::collection::vec((any::<u16>(), any::<u8>(), 0u8..3), 2..=3),
+    ];
+    (
+        (addr_strategy(), byte_strategy(), data),
+        (prefix, colon, len_delta, ck_delta),
+        (odd, term, suffix, edits, any::<u64>()),
+    )
+        .prop_map(|((addr, ty, data), (prefix, colon, len_delta, ck_delta), (odd, term, suffix, edits, case_seed))| {
+            let mut fields: Vec<u8> = vec![
+                ((data.len() as i32 + len_delta).rem_euclid(256)) as u8,
+                (addr >> 8) as u8,
+                addr as u8,
+                ty,
+            ];
+            fields.extend_from_slice(&data);
+            let sum = fields.iter().fold(0u8, |a, &b| a.wrapping_add(b));
+            fields.push(0u8.wrapping_sub(sum).wrapping_add(ck_delta));
+            let mut out = prefix;
+            if let Some(c) = colon {
+                out.push(c);
+            }
+            for (i, b) in fields.iter().enumerate() {
+                for (j, nib) in [b >> 4, b & 15].into_iter().enumerate() {
+                    let lower = h64(&(case_seed, i, j)) % 3 == 0;
+                    let ch = b"0123456789ABCDEF"[nib as usize];
+                    out.push(if lower { ch.to_ascii_lowercase() } else { ch });
+                }
+            }
+            if let Some(d) = odd {
+                out.push(d);
+            }
+            out.extend_from_slice(TERMINATORS[crate::engine::pick_idx(term, TERMINATORS.len())]);
+            out.extend_from_slice(&suffix);
+            for (sel, byte, kind) in edits {
+                if out.is_empty() {
+                    break;
+                }
+                let pos = crate::engine::pick_idx(sel, out.len());
+                match kind {
+                    0 => out[pos] = byte,
+                    1 => {
+                        out.remove(pos);
+                    }
+                    _ => out.insert(pos, byte),
+                }
+            }
+            BytesCase { bytes: out }
+        })
+}
+
+pub fn run(ctx: &Ctx) {
+    // (i-a) every string up to length 4 / 5 over the structural alphabet -----------------------
+    let maxlen = ctx.tier.pick(4usize, 5usize);
+    // jobs: the first two symbols (or shorter strings in job 0)
+    par_range(ctx, "exhaustive-short", 28 * 28 + 1, |job, st| {
+        let fail = |b: &[u8], m: String| (json!({"bytes": b}), m);
+        if job == 28 * 28 {
+            check_bytes(b"", st, false).map_err(|m| fail(b"", m))?;
+            for &a in ALPHABET.iter() {
+                check_bytes(&[a], st, false).map_err(|m| fail(&[a], m))?;
+            }
+            return Ok(());
+        }
+        let a = ALPHABET[(job / 28) as usize];
+        let b = ALPHABET[(job % 28) as usize];
+        let mut s = vec![a, b];
+        check_bytes(&s, st, false).map_err(|m| fail(&s, m))?;
+        // depth-first over the remaining positions
+        fn rec(s: &mut Vec<u8>, maxlen: usize, st: &mut Stats) -> Result<(), (Value, String)> {
+            if s.len() == maxlen {
+                return Ok(());
+            }
+            for &c in ALPHABET.iter() {
+                s.push(c);
+                check_bytes(s, st, false).map_err(|m| (json!({"bytes": s.clone()}), m))?;
+                rec(s, maxlen, st)?;
+                s.pop();
+            }
+            Ok(())
+        }
+        rec(&mut s, maxlen, st)
+    });
+    ctx.part_done("exhaustive-short", true, json!({"alphabet": 28, "max_len": maxlen}));
+
+    // (i-b) every minimal frame over {0,1,F,f} x terminators ---------------------------------
+    let digs = b"01Ff";
+    par_range(ctx, "exhaustive-minimal-frames", 4u64.pow(4), |job, st| {
+        let mut s = vec![b':'; 11];
+        for k in 0..4 {
+            s[1 + k] = digs[((job >> (2 * k)) & 3) as usize];
+        }
+        for rest in 0..4u32.pow(6) {
+            for k in 0..6 {
+                s[5 + k] = digs[((rest >> (2 * k)) & 3) as usize];
+            }
+            for t in TERMINATORS {
+                let mut full = s.clone();
+                full.extend_from_slice(t);
+                check_bytes(&full, st, false).map_err(|m| (json!({"bytes": full}), m))?;
+            }
+        }
+        Ok(())
+    });
+    ctx.part_done("exhaustive-minimal-frames", true, json!("':' + 10 digits over {0,1,F,f} (4^10) x 9 terminator variants"));
+
+    // (i-c) every one-data-byte frame over {0,1,F} ----------------------------------------
+    let digs3 = b"01F";
+    par_range(ctx, "exhaustive-one-byte-frames", 3u64.pow(5), |job, st| {
+        let mut s = vec![b':'; 13];
+        let mut j = job;
+        for k in 0..5 {
+            s[1 + k] = digs3[(j % 3) as usize];
+            j /= 3;
+        }
+        for rest in 0..3u32.pow(7) {
+            let mut r = rest;
+            for k in 0..7 {
+                s[6 + k] = digs3[(r % 3) as usize];
+                r /= 3;
+            }
+            check_bytes(&s, st, false).map_err(|m| (json!({"bytes": s.clone()}), m))?;
+        }
+        Ok(())
+    });
+    ctx.part_done("exhaustive-one-byte-frames", true, json!("':' + 12 digits over {0,1,F} (3^12)"));
+
+    // (ii) grammar based ------------------------------------------------------------------
+    run_generated(ctx, "grammar", ctx.tier.pick(1_000_000, 20_000_000), grammar_strategy, |c, st| {
+        st.class("grammar-cases");
+        check_bytes(&c.bytes, st, true)
+    });
+    // generator health: each class the check relies on must be well represented
+    if !ctx.stopped() {
+        let total = ctx.class_count("grammar-cases").max(1);
+        for cl in ["grammar:accepted", "grammar:length-mismatch", "grammar:bad-checksum", "invalid-near"] {
+            let n = ctx.class_count(cl);
+            if n * 20 < total {
+                ctx.inconclusive(format!("generator health: class {cl} has only {n} of {total} grammar cases (< 5 %)"));
+            }
+        }
+    }
+
+    // (iii) plain random bytes (cheap totality check; almost always "invalid-far")
+    run_generated(
+        ctx,
+        "random-bytes",
+        ctx.tier.pick(50_000, 1_000_000),
+        || proptest::collection::vec(any::<u8>(), 0..600).prop_map(|bytes| BytesCase { bytes }),
+        |c, st| check_bytes(&c.bytes, st, false),
+    );
+}
+
+pub fn replay(_part: &str, case: &Value) -> Result<(), String> {
+    let c: BytesCase = serde_json::from_value(case.clone()).map_err(|e| format!("bad case: {e}"))?;
+    let mut st = Stats::new();
+    check_bytes(&c.bytes, &mut st, false)
+}
